@@ -121,7 +121,7 @@ class C01(vlib.Driver):
             for algo in algos:
                 for fam in evo.FAMILIES:
                     for share in ([False, True] if algo in evo.SHARE_CAPABLE else [False]):
-                        for rep in range(3 if algo not in evo.MULTI else 2):
+                        for rep in range(2):
                             add(algo, fam, share, rng.choice(["partial", "full", "none"]), rng.choice([6, 9, 12]),
                                 rng.randrange(1000), nag=rng.choice([2, 3]))
         return cases
